@@ -39,7 +39,8 @@ EXTRA = {
     "docs_dir/misplaced.py": "def misplaced(q):\n    return q\n",
     "srcx/lib.rs": 'fn lib() -> i32 {\n    let v: Option<i32> = Some(1);\n    v.unwrap()\n}\n',
     "srcx/comp.ts": 'export function c(q: number): number {\n  return q * 61;\n}\n',
-    ".thailintignore": "# anchored pattern\ngen/*.py\n",
+    "srcx/skip_one.py": "def skip_one(q):\n    return q * 67\n",
+    ".thailintignore": "# anchored patterns\ngen/*.py\nsrcx/skip_*.py\n",
 }
 
 
@@ -64,7 +65,9 @@ def placement(top: Path, parent: str, cwd: str, spelling: str) -> tuple[Path, st
     proj = top / parent / "proj"
     cw = {"root": proj, "parent": top / parent, "inside": proj / "sub", "else": top / "else",
           "checkout": top / "co" / "work", "other": top / "other"}[cwd]
-    if spelling == "absolute":
+    if spelling == "subdirAbs":
+        tgt = str(proj / "srcx")
+    elif spelling == "absolute":
         tgt = str(proj)
     elif spelling == "dot":
         tgt = "."
@@ -148,10 +151,11 @@ def run(chk) -> None:
     if quick:
         keep = []
         for i, c in enumerate(cases):
-            if c["spelling"] in ("absolute", "dot") or (i % 4 == 0) or c["parent"] in ("proj", "build", "tests"):
+            if c["spelling"] in ("absolute", "dot", "subdirAbs") or (i % 4 == 0) or c["parent"] in ("proj", "build", "tests"):
                 keep.append(c)
         cases = keep
-    jobs = [{"parent": "x", "cwd": "root", "spelling": "absolute", "cmds": cmds}]
+    jobs = [{"parent": "x", "cwd": "root", "spelling": "absolute", "cmds": cmds},
+            {"parent": "x", "cwd": "root", "spelling": "subdirAbs", "cmds": cmds}]       # one reference per target
     jobs += [dict(c, cmds=cmds) for c in cases]
     for i, j in enumerate(jobs):
         j["top"] = str(scratch_root() / f"c09-{i}")
@@ -160,12 +164,14 @@ def run(chk) -> None:
     for j, r_ in zip(jobs, res):
         if not r_.ok:
             raise MachineryError(f"C09 job failed: {r_.error}")
-    ref = res[0].value
-    for cmd in cmds:
-        if ref[cmd]["bag"] is None:
-            raise MachineryError(f"C09 reference run of {cmd} failed: {ref[cmd]}")
+    refs = {"project": res[0].value, "subdir": res[1].value}
+    for ref in refs.values():
+        for cmd in cmds:
+            if ref[cmd]["bag"] is None:
+                raise MachineryError(f"C09 reference run of {cmd} failed: {ref[cmd]}")
     records, meta = [], []
-    for j, r_ in zip(jobs[1:], res[1:]):
+    for j, r_ in zip(jobs[2:], res[2:]):
+        ref = refs["subdir" if j["spelling"] == "subdirAbs" else "project"]
         for cmd in cmds:
             o = r_.value[cmd]
             rb = Counter(ref[cmd]["bag"])
@@ -174,11 +180,11 @@ def run(chk) -> None:
             records.append({"parent": j["parent"], "cwd": j["cwd"], "spelling": j["spelling"],
                             "exit": o["exit"] if o["exit"] is not None else -9, "ref_exit": ref[cmd]["exit"],
                             "missing": sum(missing.values()), "extra": sum(extra.values())})
-            meta.append((j, cmd, missing, extra, o))
+            meta.append((j, cmd, missing, extra, o, ref))
     verdicts = trace.validate(chk, "PathsTrace", "mc/PathsTrace.cfg", records)
     excluded = {"build", "dist", "venv", ".venv", "node_modules", "__pycache__", "htmlcov", ".tox",
                 "pkg.egg-info"}
-    for (j, cmd, missing, extra, o), (la, lb, at) in zip(meta, verdicts):
+    for (j, cmd, missing, extra, o, ref), (la, lb, at) in zip(meta, verdicts):
         case = {"parent": j["parent"], "cwd": j["cwd"], "spelling": j["spelling"], "cmd": cmd}
         chk.count(case, nontrivial=bool(ref[cmd]["bag"]))
         if la == "ok":
